@@ -57,3 +57,200 @@ Proof. vm_compute. split; reflexivity. Qed.
 
 Example C05_dev_outside_domain : rdev_minor (mkdev 0 (2 ^ 20)) = 0 /\ rdev_major (mkdev (2 ^ 12) 0) = 0.
 Proof. vm_compute. split; reflexivity. Qed.
+
+(* ======================================================================================
+   The archive: tar() -> FormatEncoder -> FormatDecoder -> ArchiveDecoder.Next
+   ====================================================================================== *)
+From DS Require Import Base.LE64 Model.Format Model.Archive Model.TarModel Model.FSMeta
+     Proofs.XattrSort Proofs.TarModelProofs Proofs.UntarProofs.
+
+(* [wf_tree t] (Proofs/TarModelProofs.v): st_mode < 2^16 with the type nibble of the constructor,
+   uid/gid/mtime are 64-bit words, xattr keys contain no NUL, entry names are single path
+   components (not "", ".", "..", no '/'), lengths are below 2^61 and a directory has fewer than
+   2^32 entries.  [nodes_of path t] lists what ArchiveDecoder.Next is expected to return: every
+   directory, file, symlink and device of t in walk order with its path, mode word, uid, gid,
+   mtime, sorted xattrs and content / target / device numbers (fifos and sockets are skipped by
+   tar()).  [tar_of_tree t] = the bytes written by Tar() for t; [decode_archive] = Next until nil.
+
+   For every such tree whose root is a directory or a regular file the archive exists and
+   decodes to exactly these nodes, with nothing left over. *)
+Theorem C05_archive_roundtrip : forall t : tree,
+  wf_tree t -> root_ok t ->
+  exists b, tar_of_tree t = Some b /\ decode_archive b = Ok (nodes_of [] t, []).
+Proof. exact archive_roundtrip. Qed.
+Print Assumptions C05_archive_roundtrip.
+
+(* tar() works on the flat stream of File events (fsBufReader.Next/Buffer, path.Dir(f.Path) == dir);
+   on the depth-first walk of a tree this reconstructs the nesting: same elements as the
+   recursion over the tree. *)
+Theorem C05_tar_events_walk : forall t : tree,
+  wf_tree t -> tar_events (walk [] [] t) = tar_tree [] [] t.
+Proof. exact tar_events_walk. Qed.
+Print Assumptions C05_tar_events_walk.
+
+(* Packing the same tree twice yields identical bytes: the archive is a function of the tree and
+   does not depend on the order in which the xattr keys of an object are listed (same_tree:
+   equal shape, names, contents and attributes; the xattr lists are permutations of each other). *)
+Theorem C05_tar_deterministic : forall t1 t2 : tree,
+  same_tree t1 t2 -> tar_of_tree t1 = tar_of_tree t2.
+Proof. exact tar_deterministic. Qed.
+Print Assumptions C05_tar_deterministic.
+
+Theorem C05_xattr_order_irrelevant : forall l1 l2 : list (bytes * bytes),
+  Permutation.Permutation l1 l2 -> NoDup (map fst l1) -> sort_xattrs l1 = sort_xattrs l2.
+Proof. exact sort_xattrs_perm. Qed.
+Print Assumptions C05_xattr_order_irrelevant.
+
+(* FINDING: an archive whose root is a symlink is written but decodes to nothing: the symlink is
+   lost without an error (ArchiveDecoder.Next waits for the element after the symlink element and
+   takes the end of the stream for the end of the archive).  Same for a device root. *)
+Theorem C05_root_symlink_lost : forall a tg,
+  wf_tree (TLink a tg) ->
+  exists b, tar_of_tree (TLink a tg) = Some b /\ decode_archive b = Ok ([], []).
+Proof. exact root_link_lost. Qed.
+Print Assumptions C05_root_symlink_lost.
+
+(* ======================================================================================
+   The writer: UnTar + LocalFS over the file system of Model/FSMeta.v
+   ====================================================================================== *)
+
+(* [unique_tree t]: sibling names are distinct, st_rdev < 2^32.  [expect pr o t] is the tree left
+   behind, defined by recursion on t: same shape without fifos/sockets; permission bits, owner,
+   xattrs as in the source (or the process defaults under the two options); mtime [Stamp] of the
+   source for files, devices and directories without archived children, unless it is the epoch;
+   [Now] -- the time of extraction -- otherwise.
+
+   End to end in the model, for every directory tree, process credentials and option set:
+   Tar, decode, UnTar into an empty directory succeeds and leaves exactly [expect]. *)
+Theorem C05_tar_untar_result : forall (pr : proc) (o : lopts) a ch,
+  wf_tree (TDir a ch) -> unique_tree (TDir a ch) ->
+  exists b ns r,
+    tar_of_tree (TDir a ch) = Some b /\ decode_archive b = Ok (ns, []) /\
+    untar pr o ns (empty_root pr) = FOk r /\ expect pr o (TDir a ch) = Some r.
+Proof. exact tar_untar_result. Qed.
+Print Assumptions C05_tar_untar_result.
+
+(* With the default options every archived object of the source is found at its path with its
+   type, permission/set-id/sticky bits, owner, xattrs, content, link target and device number
+   ([restored]); its mtime too if it is a file, a device or a directory without archived
+   children and the mtime is not the epoch ([mtime_kept]). *)
+Theorem C05_untar_restores : forall (pr : proc) a ch,
+  wf_tree (TDir a ch) -> unique_tree (TDir a ch) ->
+  exists b ns r,
+    tar_of_tree (TDir a ch) = Some b /\ decode_archive b = Ok (ns, []) /\
+    untar pr default_opts ns (empty_root pr) = FOk r /\
+    forall p c, tree_at p (TDir a ch) = Some c -> supported_tree c = true ->
+      exists e, lookup p r = Some e /\ restored c e /\
+                (mtime_kept c -> fm_mtime (fmeta_of e) = Stamp (t_mtime (tree_attrs c))).
+Proof. exact untar_restores. Qed.
+Print Assumptions C05_untar_restores.
+
+(* FINDINGS, each for EVERY tree that contains such an object and every option set
+   ([unpacked pr o t r]: r is the result of the run above). *)
+
+(* a directory with at least one archived child keeps the time of extraction *)
+Theorem C05_dir_mtime_lost : forall pr o a ch r p a' ch',
+  wf_tree (TDir a ch) -> unique_tree (TDir a ch) -> unpacked pr o (TDir a ch) r ->
+  tree_at p (TDir a ch) = Some (TDir a' ch') -> has_archived_child ch' ->
+  exists m ents, lookup p r = Some (FDir m ents) /\ fm_mtime m = Now.
+Proof. exact dir_mtime_lost. Qed.
+Print Assumptions C05_dir_mtime_lost.
+
+(* a symlink keeps the time of extraction *)
+Theorem C05_symlink_mtime_lost : forall pr o a ch r p a' tg,
+  wf_tree (TDir a ch) -> unique_tree (TDir a ch) -> unpacked pr o (TDir a ch) r ->
+  tree_at p (TDir a ch) = Some (TLink a' tg) ->
+  exists m, lookup p r = Some (FLink m tg) /\ fm_mtime m = Now.
+Proof. exact symlink_mtime_lost. Qed.
+Print Assumptions C05_symlink_mtime_lost.
+
+(* an mtime of exactly 1970-01-01T00:00:00Z is not applied *)
+Theorem C05_epoch_mtime_lost : forall pr o a ch r p c,
+  wf_tree (TDir a ch) -> unique_tree (TDir a ch) -> unpacked pr o (TDir a ch) r ->
+  tree_at p (TDir a ch) = Some c -> supported_tree c = true -> t_mtime (tree_attrs c) = 0 ->
+  exists e, lookup p r = Some e /\ fm_mtime (fmeta_of e) = Now.
+Proof. exact epoch_mtime_lost. Qed.
+Print Assumptions C05_epoch_mtime_lost.
+
+(* --no-same-owner drops all extended attributes *)
+Theorem C05_no_same_owner_drops_xattrs : forall pr nsp a ch r p c,
+  wf_tree (TDir a ch) -> unique_tree (TDir a ch) -> unpacked pr (mkLopts true nsp) (TDir a ch) r ->
+  tree_at p (TDir a ch) = Some c -> supported_tree c = true ->
+  exists e, lookup p r = Some e /\ fm_xattrs (fmeta_of e) = [].
+Proof. exact no_same_owner_drops_xattrs. Qed.
+Print Assumptions C05_no_same_owner_drops_xattrs.
+
+(* ---------- the refuting witnesses, evaluated (non-vacuity of everything above) ---------- *)
+
+(* root (mtime 1000, xattrs listed b then a) with: a set-uid file "a" (mtime 5), a symlink "b"
+   (mtime 9), an empty directory "c" (mtime 7), a file "d" with mtime 0, a char device "e" *)
+Definition C05_witness : tree :=
+  TDir (mkAttrs 16877 0 0 1000 [([117; 46; 98], [1]); ([117; 46; 97], [2; 0; 3])])
+    [ ([97], TFile (mkAttrs 35309 1000 4000000000 5 []) [1; 2; 3]);
+      ([98], TLink (mkAttrs 41471 7 8 9 []) [47; 120]);
+      ([99], TDir (mkAttrs 17407 1 2 7 []) []);
+      ([100], TFile (mkAttrs 33188 0 0 0 []) []);
+      ([101], TDev (mkAttrs 8612 0 0 3 []) 1283) ].
+
+Definition C05_run (o : lopts) : option fnode :=
+  match tar_of_tree C05_witness with
+  | Some b => match decode_archive b with
+              | Ok (ns, []) => match untar (mkProc 0 0 18) o ns (empty_root (mkProc 0 0 18)) with
+                               | FOk r => Some r
+                               | FErr _ => None
+                               end
+              | _ => None
+              end
+  | None => None
+  end.
+
+Definition mtime_at (p : list bytes) (r : option fnode) : option time :=
+  match r with Some n => option_map (fun e => fm_mtime (fmeta_of e)) (lookup p n) | None => None end.
+
+(* dir_mtime_refuted: the root had mtime 1000 and has children *)
+Example C05_dir_mtime_refuted : mtime_at [] (C05_run default_opts) = Some Now.
+Proof. vm_compute. reflexivity. Qed.
+(* symlink_mtime_refuted: the symlink had mtime 9 *)
+Example C05_symlink_mtime_refuted : mtime_at [[98]] (C05_run default_opts) = Some Now.
+Proof. vm_compute. reflexivity. Qed.
+(* the file with mtime 0 *)
+Example C05_epoch_mtime_refuted : mtime_at [[100]] (C05_run default_opts) = Some Now.
+Proof. vm_compute. reflexivity. Qed.
+(* and what is kept: the file, the empty directory, the device *)
+Example C05_mtime_kept : mtime_at [[97]] (C05_run default_opts) = Some (Stamp 5) /\
+                         mtime_at [[99]] (C05_run default_opts) = Some (Stamp 7) /\
+                         mtime_at [[101]] (C05_run default_opts) = Some (Stamp 3).
+Proof. vm_compute. repeat split; reflexivity. Qed.
+(* the set-uid file keeps mode 04755 and its owner although chown clears the bit in between *)
+Example C05_setuid_kept :
+  option_map (fun e => (fm_perm (fmeta_of e), fm_uid (fmeta_of e), fm_gid (fmeta_of e)))
+             (match C05_run default_opts with Some n => lookup [[97]] n | None => None end)
+  = Some (2541, 1000, 4000000000).
+Proof. vm_compute. reflexivity. Qed.
+(* the whole run equals expect *)
+Example C05_run_is_expect : C05_run default_opts = expect (mkProc 0 0 18) default_opts C05_witness /\
+                            C05_run (mkLopts true true) = expect (mkProc 0 0 18) (mkLopts true true) C05_witness.
+Proof. vm_compute. split; reflexivity. Qed.
+(* the xattrs of the root come back sorted by key, value with its NUL byte intact *)
+Example C05_xattrs_sorted :
+  option_map (fun e => fm_xattrs (fmeta_of e)) (match C05_run default_opts with Some n => lookup [] n | None => None end)
+  = Some [([117; 46; 97], [2; 0; 3]); ([117; 46; 98], [1])].
+Proof. vm_compute. reflexivity. Qed.
+
+(* the hypotheses of the theorems are satisfiable: the witness is a well-formed tree *)
+Example C05_witness_wf : wf_tree C05_witness /\ unique_tree C05_witness /\ root_ok C05_witness.
+Proof.
+  assert (Hx : forall kv : bytes * bytes, ~ In 0 (fst kv) -> lenN (fst kv) < 2 ^ 61 -> lenN (snd kv) < 2 ^ 61 -> wf_xattr kv)
+    by (intros kv H1 H2 H3; repeat split; assumption).
+  assert (Ha : forall m u g t xs, m < 2 ^ 16 -> valid_type (N.land m S_IFMT) = true -> u < two64 -> g < two64 ->
+                 t < two64 -> Forall wf_xattr xs -> wf_attrs (mkAttrs m u g t xs))
+    by (intros; constructor; assumption).
+  split; [|split; [|exact I]].
+  - cbn [wf_tree C05_witness]. unfold type_is, good_name, small. cbn [t_mode].
+    repeat split; try (apply Ha); try reflexivity; try constructor; try (apply Hx); try reflexivity;
+      try constructor; try (apply Hx); try reflexivity; try constructor; try (left; reflexivity);
+      cbn; intuition discriminate.
+  - cbn [unique_tree C05_witness map fst]. repeat split; try reflexivity.
+    repeat constructor; cbn; try (intuition discriminate).
+    all: try constructor.
+Qed.
